@@ -168,6 +168,11 @@ pub fn c03_pipeline(input: &str, ext_idx: usize, conv_sel: u8, st: &mut Stats) -
     stage!(P, "parse-report", render_report(full.report(), input)).map_err(|e| Violation::new("c03.report-write-err", e))?;
     let meta = stage!(P, "parse_metadata", p.parse_metadata(input));
     stage!(P, "metadata-report", render_report(meta.report(), input)).map_err(|e| Violation::new("c03.report-write-err", e))?;
+    // the same entry points with parse options (recipe-reference checker, metadata validator)
+    let with_opts = stage!(P, "parse_with_options", p.parse_with_options(input, test_options()));
+    stage!(P, "options-report", render_report(with_opts.report(), input)).map_err(|e| Violation::new("c03.report-write-err", e))?;
+    let meta_opts = stage!(P, "parse_metadata_with_options", p.parse_metadata_with_options(input, test_options()));
+    stage!(P, "options-metadata-report", render_report(meta_opts.report(), input)).map_err(|e| Violation::new("c03.report-write-err", e))?;
     let _ = stage!(P, "validity", (full.is_valid(), meta.is_valid(), full.has_output()));
     st.class_if(full.report().has_errors(), "parse-has-errors");
     st.class_if(full.has_output(), "parse-has-output");
@@ -520,6 +525,16 @@ pub fn c04_spans(input: &str, ext_idx: usize, conv_sel: u8, st: &mut Stats) -> V
     match guard(|| build_ast(PullParser::new(input, ext))) {
         Ok(ast) => report_ok(input, ast.report(), "ast report")?,
         Err(_) => st.exclude("build_ast panicked (C03's business)"),
+    }
+    // the diagnostics that only parse options produce (recipe-reference checker, metadata validator)
+    if input.contains("@@") || input.contains(">>") || input.contains("---") {
+        match guard(|| p.parse_with_options(input, test_options())) {
+            Ok(r) => {
+                st.class_if(r.report().iter().count() != full.report().iter().count(), "diagnostics-from-parse-options");
+                report_ok(input, r.report(), "parse_with_options report")?
+            }
+            Err(_) => st.exclude("parse_with_options panicked (C03's business)"),
+        }
     }
     if multibyte_near_marker || any_diag {
         st.nontrivial(&(input, ext_idx, conv_sel));
